@@ -93,7 +93,7 @@ def two_phase(ctx, pfx, A, ev, chain0, nc, nd, sp, loops, steps, out_pick, dim_t
     if len(outs) != 1:
         ctx.unknown(pfx + '.guard_row_value', A, 'store', why='expected one output buffer carried through the collection loop (found %d)' % len(outs), sp=l2.sp)
         ctx.unknown(pfx + '.alloc', A, 'alloc', why='output buffer not identified', sp=l2.sp)
-        return l2, None
+        return None
     ok_ = outs[0]
     lh = l2.lh[ok_]
     rowi = T.sub(ev.t(l2.elem), nd) if l2.elem is not None else l2.var      # element nd + k stored at row k, or element k at row k
